@@ -9,7 +9,11 @@ data set k itself is `raw (1000 + k)`.
 namespace SafeNet.Driver.ClientRead
 open SafeNet.Driver SafeNet.Driver.SelfEnc SafeNet.Model.SelfEnc SafeNet.Model.ClientRead
 
-def nSets : Nat := 3
+def nSets : Nat := 6
+
+/-- index of the first chunk of data set `k` with the same bytes as chunk `i` (sets 3, 4: three identical chunks) — mirrors `CHUNK_CLASSES` of the harness, which asserts it against the real output -/
+def chunkClass (k i : Nat) : Nat :=
+  if k = 3 ∨ k = 4 then 0 else i
 def nGen : Nat := 4
 
 def env : Env where
@@ -18,12 +22,13 @@ def env : Env where
   wOf _ := 300
   levelOf _ := none
   srcOf d := if d < nSets then some (.raw (1000 + d)) else none
+  chunkOf d i := .ech d (chunkClass d i)
 
 def S : SE Sym Nat := symSE env
 
 def contents : List Sym :=
   (List.range nGen).map Sym.raw ++
-  (List.range nSets).flatMap fun k => Sym.wrap false k :: (List.range 3).map (Sym.ech k)
+  (List.range nSets).flatMap fun k => Sym.wrap false k :: ((List.range 3).map fun i => Sym.ech k (chunkClass k i)).eraseDups
 
 def dropPrefix (p s : String) : Option String :=
   if p.toList.isPrefixOf s.toList then some (String.ofList (s.toList.drop p.length)) else none
@@ -34,7 +39,7 @@ def parseContent (s : String) : Option Sym :=
   | _, some r, _ => r.toNat?.bind fun k => if k < nSets then some (Sym.wrap false k) else none
   | _, _, some r => match r.splitOn "." with
     | [k, i] => match k.toNat?, i.toNat? with
-      | some k, some i => if k < nSets ∧ i < 3 then some (Sym.ech k i) else none
+      | some k, some i => if k < nSets ∧ i < 3 then some (Sym.ech k (chunkClass k i)) else none
       | _, _ => none
     | _ => none
   | _, _, _ => none
@@ -83,13 +88,31 @@ def parseReply (s : String) : Option (Reply Sym) :=
   | ["ok", r] => (parseRec r).map Reply.ok
   | ["nc", r] => (parseRec r).map fun _ => .err .notEnoughCopies
   | ["dn", r] => (parseRec r).map fun _ => .err .doesNotMatch
-  | ["sp", rs] => ((rs.splitOn ",").mapM parseRec).bind fun m => if m.length ≤ 5 then some (.err (.split m)) else none
+  | ["sp", rs] => ((rs.splitOn ",").mapM parseRec).bind fun m => if m.length ≤ 6 then some (.err (.split m)) else none
   | _ => none
 
 def vaultErrName : VaultErr → String
   | .invalid => "invalid"
   | .missing => "missing"
   | .network c => c
+
+/-- all permutations -/
+def perms {α : Type} : List α → List (List α)
+  | [] => [[]]
+  | x :: xs => (perms xs).flatMap fun p => (List.range (p.length + 1)).map fun i => p.take i ++ x :: p.drop i
+
+def rotations {α : Type} (l : List α) : List (List α) :=
+  (List.range l.length).map fun r => l.drop r ++ l.take r
+
+/-- the iteration orders a `vaultperm` line stands for (same set as the harness's `orders_of`) -/
+def ordersOf {α : Type} (l : List α) : List (List α) :=
+  if l.length ≤ 3 then perms l else rotations l ++ rotations l.reverse
+
+def insertString (x : String) : List String → List String
+  | [] => [x]
+  | y :: ys => if x ≤ y then x :: y :: ys else y :: insertString x ys
+
+def sortStrings (xs : List String) : List String := xs.foldr insertString []
 
 def step (_ : Unit) (ws : List String) : Unit × String :=
   match ws with
@@ -107,9 +130,9 @@ def step (_ : Unit) (ws : List String) : Unit × String :=
       if k < nSets then
         let replies : Nat → Reply Sym := fun a =>
           if a = (Sym.wrap false k).code then m
-          else if a = (Sym.ech k 0).code then e0
-          else if a = (Sym.ech k 1).code then e1
-          else if a = (Sym.ech k 2).code then e2
+          else if a = (env.chunkOf k 0).code then e0
+          else if a = (env.chunkOf k 1).code then e1
+          else if a = (env.chunkOf k 2).code then e2
           else match contents.find? (fun s => s.code == a) with
             | some s => .ok ⟨some .chunk, .chunk s⟩
             | none => .err .notFound
@@ -126,6 +149,17 @@ def step (_ : Unit) (ws : List String) : Unit × String :=
         match getVault key r with
         | .ok p => ((), s!"ok {p.owner}.{p.ctr}.{p.ver}")
         | .error e => ((), s!"err {vaultErrName e}")
+      else ((), "bad-op")
+    | _, _ => ((), "bad-op")
+  | ["vaultperm", key, r] =>
+    match key.toNat?, parseReply r with
+    | some key, some (.err (.split m)) =>
+      if key < 3 ∧ m.length ≤ 6 ∧ 0 < m.length then
+        let outcomes := (ordersOf m).map fun m' =>
+          match getVault key (.err (.split m')) with
+          | .ok p => s!"ok {p.owner}.{p.ctr}.{p.ver}"
+          | .error e => s!"err {vaultErrName e}"
+        ((), " | ".intercalate (sortStrings outcomes.eraseDups))
       else ((), "bad-op")
     | _, _ => ((), "bad-op")
   | _ => ((), "bad-op")
